@@ -33,8 +33,14 @@ type cliCall struct {
 	CancelAt  int  `json:"cancel_at"`  // odd tick, -1 none
 	Deadline  int  `json:"deadline"`   // context deadline, odd ticks after start, -1 none
 	ReleaseAt int  `json:"release_at"` // odd tick (matcher 4)
+	Ctx       int  `json:"ctx,omitempty"` // without cancellation and deadline: 0 a cancellable context nobody cancels before the end, 1 context.Background(), 2 context.TODO(), 3 a value context over Background (none of 1..3 can ever end)
 	Started   bool `json:"-"`
 }
+
+type cliCtxKey struct{}
+
+// neverEnds: the call's context can neither be cancelled nor expire.
+func (c cliCall) neverEnds() bool { return c.Ctx > 0 && c.CancelAt < 0 && c.Deadline < 0 }
 
 type cliDeliver struct {
 	At     int   `json:"at"` // odd tick
@@ -58,6 +64,7 @@ type cliScenario struct {
 	DoubleClose bool         `json:"double_close"`
 	LogDropped  bool         `json:"log_dropped"`           // nclient6: WithLogDroppedPackets
 	CloseFails  bool         `json:"close_fails,omitempty"` // fault injection: the socket's own Close reports an error (it is closed all the same)
+	Knob        int          `json:"knob,omitempty"` // other documented configuration of the client (adapter.start): 1 nclient4 WithHWAddr over a different constructor address
 	LogMode     int          `json:"log_mode,omitempty"`    // logging configuration of the client (adapter.start); 0: none
 	Dest        int          `json:"dest,omitempty"`        // destination selector (adapter.setDest): other ports, broadcast, zoned IPv6 addresses
 	Window      int          `json:"window,omitempty"`      // unlimited tries are watched for this many tries before the runner cancels (0: 11)
@@ -65,9 +72,9 @@ type cliScenario struct {
 
 func (sc cliScenario) logMode() int {
 	if sc.LogDropped {
-		return 1
+		return 1 + 16*sc.Knob
 	}
-	return sc.LogMode
+	return sc.LogMode + 16*sc.Knob
 }
 
 func (sc cliScenario) window() int {
@@ -165,6 +172,17 @@ func runCliScenario(t *testing.T, sc cliScenario) cliOutcome {
 				ctx, cancel := context.WithCancel(context.Background())
 				if cl.Deadline >= 0 {
 					ctx, cancel = context.WithDeadline(context.Background(), time.Now().Add(time.Duration(cl.Deadline)*tick))
+				} else if cl.CancelAt < 0 && cl.Ctx > 0 {
+					cancel()
+					cancel = func() {}
+					switch cl.Ctx {
+					case 1:
+						ctx = context.Background()
+					case 2:
+						ctx = context.TODO()
+					default:
+						ctx = context.WithValue(context.Background(), cliCtxKey{}, 1)
+					}
 				}
 				cancels[i] = cancel
 				req, wire := ad.request(cl.Xid, cl.Variant)
@@ -490,8 +508,13 @@ func modelCli(sc cliScenario) ([]cliResult, []cliWrite) {
 	expire(end + 1)
 	for _, c := range calls {
 		if c.state == 1 {
-			// unlimited tries: cancelled by the runner at the horizon; a blocked matcher is released by then
-			finish(c, end, cliResult{Serial: -1, Nil: true, Err: "ctx-canceled"})
+			// unlimited tries: cancelled by the runner at the horizon; a blocked matcher is released by then. A call
+			// whose context can never end is ended by the Close that follows
+			if c.neverEnds() {
+				finish(c, end, cliResult{Serial: -1, Nil: true, Err: "no-response"})
+			} else {
+				finish(c, end, cliResult{Serial: -1, Nil: true, Err: "ctx-canceled"})
+			}
 		}
 	}
 	// expected transmissions
